@@ -11,9 +11,10 @@ What is regenerated from the working tree on every run:
     bodies the model's ``usable_ttl`` / digest flag / ``allowed`` stand for (compared as normalised source).
   * the route in ``_factory.py``: the resolver-holding resource iff ``introspect_resolver is not None``.
 
-Besides shape, two *taint* rules are enforced on ``on_post`` and ``_read_token``: the names ``token``,
-``raw`` and ``body`` (the subject credential and what it was parsed from) may only occur in the
-whitelisted expressions, so a new log line / response field mentioning them breaks the translation.
+Besides shape, a *taint* rule is enforced on ``on_post``: the names ``token`` (the subject credential) and
+``req`` may only occur in the whitelisted expressions, log fields may only carry whitelisted credential-free
+expressions, and every statement of ``_read_token`` must be one of the known ones -- so a new log line /
+response field mentioning the credential breaks the translation.
 Wording of log messages and comments is deliberately not looked at.
 Anything outside the accepted shapes raises TranslationBroken.
 """
@@ -91,10 +92,9 @@ def _names(node: ast.AST) -> set[str]:
 # logging calls
 # ---------------------------------------------------------------------------
 
-_TAINTED = {"token", "raw", "body", "req"}
 # what a log record / exception text may be built from
 _LOG_EXTRA_OK = {
-"req.remote_addr or ''", "caller", "auth.authenticated", "digest", "type(exc).__name__",
+    "req.remote_addr or ''", "caller", "auth.authenticated", "digest", "type(exc).__name__",
     "identity.principal", "type(identity.ttl_seconds).__name__",
 }
 
@@ -301,7 +301,6 @@ def read_token_checks(m: _Mod) -> str:
     fn = m.func("_read_token", "_TokenIntrospectionResource")
     where = "_read_token"
     out: list[str] = []
-    state = 0
     for st in _body(fn):
         src = _u(st)
         if src == "length = req.content_length":
@@ -337,7 +336,6 @@ def read_token_checks(m: _Mod) -> str:
                 out.append("RkEncodable")
                 continue
         raise m.bad(where, f"unexpected statement {src[:100]}")
-    del state
     # data flow order: read before the raw checks, json before dict, get before token checks, return last
     def pos(x: str) -> int:
         if out.count(x) != 1:
